@@ -33,20 +33,20 @@ theorem srcOf_length : ∀ cs : List Chunk, (srcOf cs).length = totalLines cs
   | [] => rfl
   | c :: cs => by simp [srcOf, totalLines, srcOf_length cs]
 
-theorem srcOf_append : ∀ cs1 cs2 : List Chunk, srcOf (cs1 ++ cs2) = srcOf cs1 ++ srcOf cs2
+theorem srcOf_append_rf : ∀ cs1 cs2 : List Chunk, srcOf (cs1 ++ cs2) = srcOf cs1 ++ srcOf cs2
   | [], _ => rfl
-  | c :: cs1, cs2 => by simp [srcOf, srcOf_append cs1 cs2]
+  | c :: cs1, cs2 => by simp [srcOf, srcOf_append_rf cs1 cs2]
 
 theorem totalLines_append : ∀ cs1 cs2 : List Chunk,
     totalLines (cs1 ++ cs2) = totalLines cs1 + totalLines cs2
   | [], _ => by simp [totalLines]
   | c :: cs1, cs2 => by simp [totalLines, totalLines_append cs1 cs2]; omega
 
-theorem chunkItems_append (ic : Bool) : ∀ (cs1 cs2 : List Chunk) (lc : Nat),
+theorem chunkItems_append_rf (ic : Bool) : ∀ (cs1 cs2 : List Chunk) (lc : Nat),
     chunkItems ic lc (cs1 ++ cs2) = chunkItems ic lc cs1 ++ chunkItems ic (lc + totalLines cs1) cs2
   | [], _, _ => by simp [chunkItems, totalLines]
   | c :: cs1, cs2, lc => by
-    simp only [List.cons_append, chunkItems, totalLines, chunkItems_append ic cs1 cs2, List.append_assoc]
+    simp only [List.cons_append, chunkItems, totalLines, chunkItems_append_rf ic cs1 cs2, List.append_assoc]
     rw [show lc + c.lines.length + totalLines cs1 = lc + (c.lines.length + totalLines cs1) from by omega]
 
 /-- the span of the chunk's item ends at the last physical line of the chunk -/
